@@ -589,6 +589,11 @@ def run(ctx, tier):
     results += c09.file_via_guard(ctx, rule='C02.file-via-guard')
     # the slot a commit writes is the other one than the slot of the header the transaction began from: that header is read from the file, never from a cached copy
     results += c09.snapshot_source(ctx, rule='C02.snapshot-source')
+    # a writer works from the free list as the previous commit left it: the copy is taken behind the writer lock
+    results += c09.writer_reads_after_lock(ctx, rule='C02.writer-snapshot')
+    # an error of a sync or write is an error of the commit: it is not swallowed and retried (after a failed fsync the kernel may have dropped the dirty pages)
+    import c11
+    results += c11.propagate(ctx, rule='C02.propagate')
     return dict(
         results=results,
         stats=dict(ctx.stats),
